@@ -16,7 +16,16 @@ pub struct Workspaces {
     pub n: u64,
 }
 
-const SENTINEL: &str = "# sentinel: pre-existing target, must survive a failed compilation\nold: true\n";
+const SENTINEL_HEAD: &str = "# sentinel: pre-existing target, must survive a failed compilation\nold: true\n";
+
+/// A pre-existing target that is longer than any generated document (so that a write that does not truncate shows).
+fn sentinel() -> String {
+    let mut s = String::from(SENTINEL_HEAD);
+    for i in 0..4000 {
+        s.push_str(&format!("# padding line {i} of the previous document\n"));
+    }
+    s
+}
 
 /// Injects one error of a chosen phase into module `k` of accepted sources.
 fn inject(src: &mut Sources, rng: &mut Rng) -> &'static str {
@@ -133,7 +142,7 @@ fn check_workspace(src: &Sources, phase: &str, with_base: bool, use_conf: bool, 
     write_sources(&dir.path, src);
     let main = &src.files[0].0;
     let target = dir.path.join("out.yaml");
-    std::fs::write(&target, SENTINEL).unwrap();
+    std::fs::write(&target, sentinel()).unwrap();
     // make the sentinel's mtime observable: an old timestamp is not needed, inode + bytes + mtime are compared
     let base = if with_base {
         std::fs::write(
@@ -185,7 +194,7 @@ fn check_workspace(src: &Sources, phase: &str, with_base: bool, use_conf: bool, 
                     if let Some((ptr, _, _)) = first_diff(&canon(&part(&got)), &canon(&part(want))) {
                         viol("C13 target-differs-from-library-output".into(), "the written target is not the document the library builds", json!(ptr));
                     }
-                    if a.bytes == SENTINEL.as_bytes() {
+                    if a.bytes == sentinel().as_bytes() {
                         viol("C13 success-without-write".into(), "exit 0 but the target was not written", Value::Null);
                     }
                 }
@@ -208,6 +217,22 @@ fn check_workspace(src: &Sources, phase: &str, with_base: bool, use_conf: bool, 
                 json!({"bytes_changed": a.bytes != before.bytes, "inode_changed": a.ino != before.ino, "mtime_changed": a.mtime != before.mtime}),
             ),
             None => viol("C13 target-removed-on-failure".into(), "a failed compilation removed the existing target", Value::Null),
+        }
+        if std::env::var("OALV_STRACE").is_ok() {
+            // file-system call log (strace writes to stderr): no write access to the target on a failing run
+            let touched: Vec<&str> = r
+                .stderr
+                .lines()
+                .filter(|l| l.contains("out.yaml"))
+                .filter(|l| {
+                    (l.contains("openat(") && (l.contains("O_WRONLY") || l.contains("O_RDWR") || l.contains("O_TRUNC") || l.contains("O_CREAT")))
+                        || l.contains("rename") || l.contains("unlink") || l.contains("truncate(") || l.contains("creat(")
+                })
+                .collect();
+            st.inc("strace_logs_checked");
+            if !touched.is_empty() {
+                viol("C13 target-opened-for-writing-on-failure".into(), "the file-system log shows write access to the target although the run failed", json!(touched));
+            }
         }
         if matches!(lib, Outcome::Doc { .. }) {
             viol("C13 cli-fails-library-succeeds".into(), "oal-cli failed where the library pipeline produces a document", Value::Null);
@@ -254,6 +279,32 @@ fn check_workspace(src: &Sources, phase: &str, with_base: bool, use_conf: bool, 
                     }
                 }
             }
+        }
+    }
+    // the real language server: diagnostics published for the refresh forced by a request
+    {
+        let conf = format!("[api]\nmain = \"{main}\"\ntarget = \"out-lsp.yaml\"\n");
+        let _ = std::fs::write(dir.path.join("oal.toml"), conf);
+        match crate::drive::lsp::Lsp::start(&dir.path, None) {
+            Ok(mut lsp) => {
+                let uri = crate::drive::lsp::file_uri(&dir.path.join(main));
+                match lsp.position_request("textDocument/definition", &uri, 0, 0) {
+                    Ok(_) => {
+                        let n: usize = lsp.diags.values().map(|d| d.len()).sum();
+                        st.inc("real_lsp_compared");
+                        if (n > 0) == r.success() {
+                            viol(
+                                format!("C13 real-lsp-diagnostics-disagree:{}", if r.success() { "diagnostics-on-success" } else { "no-diagnostic-on-failure" }),
+                                "oal-lsp publishes a diagnostic exactly when the CLI fails: violated",
+                                json!({"diagnostics": n}),
+                            );
+                        }
+                    }
+                    Err(e) => viol("C13 real-lsp-failure".into(), "oal-lsp died or did not answer", json!(format!("{e:?}"))),
+                }
+                lsp.shutdown();
+            }
+            Err(e) => viol("C13 real-lsp-start".into(), "oal-lsp did not start", json!(format!("{e:?}"))),
         }
     }
     match guard(|| lsp_cycle_on_disk(&dir.path.join(main))) {
@@ -335,7 +386,7 @@ fn config_failures(st: &mut Stats) -> Vec<(String, Value)> {
     let mut out = Vec::new();
     let dir = TempDir::new("c13cfg");
     std::fs::write(dir.path.join("main.oal"), "res / on get -> {};\n").unwrap();
-    std::fs::write(dir.path.join("out.yaml"), SENTINEL).unwrap();
+    std::fs::write(dir.path.join("out.yaml"), sentinel()).unwrap();
     std::fs::write(dir.path.join("bad.yaml"), "openapi: [unclosed\n").unwrap();
     let cases: Vec<(&str, CliResult)> = vec![
         ("missing-main", run_cli(&dir.path, "absent.oal", "out.yaml", None)),
@@ -349,7 +400,7 @@ fn config_failures(st: &mut Stats) -> Vec<(String, Value)> {
         if r.success() || r.signal.is_some() || !matches!(r.code, Some(1) | Some(2)) {
             out.push((format!("C13 config-failure-not-reported:{name}"), json!({"code": r.code, "signal": r.signal})));
         }
-        if bytes != SENTINEL.as_bytes() {
+        if bytes != sentinel().as_bytes() {
             out.push((format!("C13 target-touched-on-config-failure:{name}"), Value::Null));
         }
     }
@@ -376,6 +427,21 @@ pub fn run(ctx: &Ctx) -> i32 {
     }
     if acc.stats.get("cli_failure") == 0 || acc.stats.get("cli_success") == 0 {
         acc.inconclusive.push("did not observe both successful and failing CLI runs".into());
+    }
+    if !ctx.quick() {
+        acc.asan(&["c13"]);
+        // strace monitor: on a failing run nothing may open the target for writing, rename or unlink it
+        {
+            let _g = crate::drive::sanitize::BinaryOverride::wrapper(
+                "strace -f -qq -e trace=openat,creat,rename,renameat,renameat2,unlink,unlinkat,truncate,ftruncate",
+            );
+            std::env::set_var("OALV_STRACE", "1");
+            if let Some(wl) = super::workload("c13-strace", &ctx.tier) {
+                let r = acc.pool(wl.as_ref(), "c13-strace", false);
+                acc.observed.insert("monitor:strace".into(), json!({"workspaces": r.evaluations, "violations": r.violations.len()}));
+            }
+            std::env::remove_var("OALV_STRACE");
+        }
     }
     acc.finish(
         "exploration",
